@@ -275,7 +275,61 @@ pub fn gen(tier: &str, seed: u64, outdir: &str) {
       let m = mk(0, 0, &e); let res = catch(move || mat_out(&m.abs()));
       cs.push(app("CMatMap", vec![raw("UAbs"), mat_tm(0, 0, &e), libm_table(&crate::libm::Table::default()), outcome_list(&res)]), "empty-matrix", true);
       let m = mk(0, 0, &e); let res = catch(move || mat_out(&m.powi(2)));
-      cs.push(app("CMatPowi", vec![mat_tm(0, 0, &e), Tm::Z(2), outcome_list(&res)]), "empty-matrix", true); }
+      cs.push(app("CMatPowi", vec![mat_tm(0, 0, &e), Tm::Z(2), outcome_list(&res)]), "empty-matrix", true);
+      // all 29 maps, more exponents, powf, Matrix::inf_norm, on Matrix::empty() itself
+      for (name, _vm, mm, _sm, _mode, _tn) in maps.iter() {
+          let m = Matrix::empty(); let res = catch(|| mat_out(&mm(&m)));
+          cs.push(app("CMatMap", vec![raw(name), mat_tm(0, 0, &e), libm_table(&crate::libm::Table::default()), outcome_list(&res)]), "empty-matrix", true);
+      }
+      for &p in &[3i32, -1, 0, 7] {
+          let m = Matrix::empty(); let res = catch(move || mat_out(&m.powi(p)));
+          cs.push(app("CMatPowi", vec![mat_tm(0, 0, &e), Tm::Z(p as i64), outcome_list(&res)]), "empty-matrix", true);
+      }
+      let m = Matrix::empty(); let res = catch(move || mat_out(&m.powf(2.5)));
+      cs.push(app("CMatPowf", vec![mat_tm(0, 0, &e), Tm::F(2.5), libm_table(&crate::libm::Table::default()), outcome_list(&res)]), "empty-matrix", true);
+      let m = Matrix::empty(); let res = catch(move || vec![m.inf_norm()]);
+      cs.push(app("CMatInfNorm", vec![mat_tm(0, 0, &e), outcome_list(&res)]), "empty-matrix", true);
+      // 2c. degenerate shapes over no data (0 x c, r x 0: what reshape_mut(-1, c) / (r, -1) makes of the empty matrix;
+      //     built here through the public fields): Matrix::new still refuses them, so the value forms panic
+      for &(rr, cc) in &[(0usize, 3usize), (3, 0), (0, 1), (1, 0)] {
+          for t in 0..4 { for f in 0..4 {
+              let m1 = mk(rr, cc, &e);
+              let res = mat_scalar(t, f, &m1, 2.0);
+              let (sf, of) = if f < 2 { (app("MMat", vec![mat_tm(rr, cc, &e)]), app("MSc", vec![Tm::F(2.0)])) } else { (app("MSc", vec![Tm::F(2.0)]), app("MMat", vec![mat_tm(rr, cc, &e)])) };
+              cs.push(app("CMatOp", vec![raw(TRAITS[t]), raw(MS_FORMS[f].0), raw(MS_FORMS[f].1), sf, of, outcome_list(&res)]), "malformed/degenerate-matrix", true);
+              let res = mat_mat(t, f, &m1, &m1);
+              cs.push(app("CMatBin", vec![raw(TOKS[t]), Tm::Nat(f as u64), mat_tm(rr, cc, &e), mat_tm(rr, cc, &e), outcome_list(&res)]), "malformed/degenerate-matrix", true);
+              let m0 = mk(0, 0, &e);
+              let res = mat_mat(t, f, &m1, &m0);
+              cs.push(app("CMatBin", vec![raw(TOKS[t]), Tm::Nat(f as u64), mat_tm(rr, cc, &e), mat_tm(0, 0, &e), outcome_list(&res)]), "malformed/degenerate-matrix", true);
+              let res = mat_mat(t, f, &m0, &m1);
+              cs.push(app("CMatBin", vec![raw(TOKS[t]), Tm::Nat(f as u64), mat_tm(0, 0, &e), mat_tm(rr, cc, &e), outcome_list(&res)]), "malformed/degenerate-matrix", true);
+          }
+          let m1 = mk(rr, cc, &e);
+          let res = mat_scalar_assign(t, &m1, 2.0);
+          cs.push(app("CMatOp", vec![raw(ATRAITS[t]), raw("TyMatrix"), raw("TyF64"), app("MMat", vec![mat_tm(rr, cc, &e)]), app("MSc", vec![Tm::F(2.0)]), outcome_list(&res)]), "malformed/degenerate-matrix", true);
+          }
+          let m = mk(rr, cc, &e); let res = catch(move || mat_out(&(-m)));
+          cs.push(app("CMatNeg", vec![mat_tm(rr, cc, &e), outcome_list(&res)]), "malformed/degenerate-matrix", true);
+          let m = mk(rr, cc, &e); let res = catch(move || mat_out(&m.exp()));
+          cs.push(app("CMatMap", vec![raw("UExp"), mat_tm(rr, cc, &e), libm_table(&crate::libm::Table::default()), outcome_list(&res)]), "malformed/degenerate-matrix", true);
+      }
+      // the empty matrix against non-empty operands: 1 x 1 broadcasts to the empty matrix, everything else panics
+      for t in 0..4 { for &(rr, cc) in &[(1usize, 1usize), (1, 3), (3, 1), (2, 2)] {
+          let b: Vec<f64> = (0..rr * cc).map(|i| 1.5 + i as f64).collect();
+          let (m0, m1) = (mk(0, 0, &e), mk(rr, cc, &b));
+          for f in 0..4 {
+              let res = mat_mat(t, f, &m0, &m1);
+              cs.push(app("CMatBin", vec![raw(TOKS[t]), Tm::Nat(f as u64), mat_tm(0, 0, &e), mat_tm(rr, cc, &b), outcome_list(&res)]), "empty-matrix", true);
+              let res = mat_mat(t, f, &m1, &m0);
+              cs.push(app("CMatBin", vec![raw(TOKS[t]), Tm::Nat(f as u64), mat_tm(rr, cc, &b), mat_tm(0, 0, &e), outcome_list(&res)]), "empty-matrix", true);
+          }
+          for f in 0..2 {
+              let res = mat_mat_assign(t, f, &m0, &m1);
+              cs.push(app("CMatOp", vec![raw(ATRAITS[t]), raw("TyMatrix"), raw(if f == 0 { "TyMatrix" } else { "TyRefMatrix" }), app("MMat", vec![mat_tm(0, 0, &e)]), app("MMat", vec![mat_tm(rr, cc, &b)]), outcome_list(&res)]), "empty-matrix", true);
+          }
+      }}
+    }
     // 3. negation
     for &n in &lengths(thorough, 17, &mut r) {
         let a = vals(&mut r, n, Mode::Special);
@@ -427,27 +481,45 @@ pub fn oracle(tier: &str, seed: u64) -> (u64, Vec<Finding>) {
     let iters = if tier == "thorough" { 6000 } else { 900 };
     let maps = all_maps();
     // --- the empty Matrix: the property includes empty operands; every form must return the empty result
+    //     (class empty-matrix:value-form-panics: recorded as a finding on the original code, repaired by `fix:` in
+    //     Matrix::reshape_mut; the class must stay silent on the repaired code and fires again if the fix is reverted)
     { let e: Vec<f64> = vec![];
-      let m0 = mk(0, 0, &e);
       let mut bad: Vec<String> = vec![];
+      let mut wrong: Vec<String> = vec![];
       crumb("empty matrix (0x0, Matrix::empty()) through every operator form");
-      for t in 0..4 {
-          for f in 0..4 {
-              tried += 2;
-              if mat_scalar(t, f, &m0, 2.0).is_err() { bad.push(format!("{} form {}", ["Matrix op f64", "&Matrix op f64", "f64 op Matrix", "f64 op &Matrix"][f], OPN[t])); }
-              if mat_mat(t, f, &m0, &m0).is_err() { bad.push(format!("Matrix {} Matrix (ownership form {})", OPN[t], f)); }
+      // the expected outcome: shape 0 x 0 and no data (a borrowed right operand of op-assign is reported too)
+      let mut see = |res: Result<Vec<f64>, String>, what: String| {
+          match res {
+              Err(_) => bad.push(what),
+              Ok(v) => if !((v.len() == 2 || v.len() == 4) && v.iter().all(|x| x.to_bits() == 0)) { wrong.push(format!("{} -> {:?}", what, v)) },
           }
-          tried += 3;
-          if mat_mat_assign(t, 0, &m0, &m0).is_err() || mat_mat_assign(t, 1, &m0, &m0).is_err() { bad.push(format!("Matrix {}= Matrix", OPN[t])); }
-          if mat_scalar_assign(t, &m0, 2.0).is_err() { bad.push(format!("Matrix {}= f64", OPN[t])); }
+      };
+      for (src, m0) in [("Matrix::empty()", Matrix::empty()), ("Matrix { nrows: 0, ncols: 0, data: [] }", mk(0, 0, &e)), ("Matrix::default()", Matrix::default())] {
+          for t in 0..4 {
+              for f in 0..4 {
+                  tried += 2;
+                  see(mat_scalar(t, f, &m0, 2.0), format!("{} {} ({})", ["Matrix op f64", "&Matrix op f64", "f64 op Matrix", "f64 op &Matrix"][f], OPN[t], src));
+                  see(mat_mat(t, f, &m0, &m0), format!("Matrix {} Matrix (ownership form {}, {})", OPN[t], f, src));
+              }
+              tried += 3;
+              see(mat_mat_assign(t, 0, &m0, &m0), format!("Matrix {}= Matrix ({})", OPN[t], src));
+              see(mat_mat_assign(t, 1, &m0, &m0), format!("Matrix {}= &Matrix ({})", OPN[t], src));
+              see(mat_scalar_assign(t, &m0, 2.0), format!("Matrix {}= f64 ({})", OPN[t], src));
+          }
+          tried += 2;
+          let m = m0.clone(); see(catch(move || mat_out(&(-m))), format!("-Matrix ({})", src));
+          let m = m0.clone(); see(catch(move || mat_out(&m.powf(2.5))), format!("Matrix::powf ({})", src));
+          for p in [2i32, 3, -1, 0, 7] { tried += 1; let m = m0.clone(); see(catch(move || mat_out(&m.powi(p))), format!("Matrix::powi({}) ({})", p, src)); }
+          for (name, _vm, mm, _sm, _mode, _tn) in maps.iter() { tried += 1; let m = m0.clone(); see(catch(move || mat_out(&mm(&m))), format!("Matrix map {} ({})", name, src)); }
       }
-      tried += 3;
-      let m = m0.clone(); if catch(move || mat_out(&(-m))).is_err() { bad.push("-Matrix".into()); }
-      let m = m0.clone(); if catch(move || mat_out(&m.abs())).is_err() { bad.push("Matrix::abs (and the other maps)".into()); }
-      let m = m0.clone(); if catch(move || mat_out(&m.powi(2))).is_err() { bad.push("Matrix::powi".into()); }
       if !bad.is_empty() {
           out.push(Finding { class: "empty-matrix:value-form-panics".into(),
-              what: format!("{} operator/map forms panic on the empty 0x0 Matrix instead of returning the empty result (e.g. {}); the op-assign forms accept it", bad.len(), bad[..bad.len().min(4)].join("; ")),
+              what: format!("{} operator/map forms panic on the empty 0x0 Matrix instead of returning the empty result (e.g. {})", bad.len(), bad[..bad.len().min(4)].join("; ")),
+              input: "Matrix::empty() (nrows = 0, ncols = 0, no data), scalar 2.0".into() });
+      }
+      if !wrong.is_empty() {
+          out.push(Finding { class: "empty-matrix:wrong-result".into(),
+              what: format!("{} operator/map forms return something other than the empty 0x0 matrix on the empty Matrix (e.g. {})", wrong.len(), wrong[..wrong.len().min(4)].join("; ")),
               input: "Matrix::empty() (nrows = 0, ncols = 0, no data), scalar 2.0".into() });
       } }
     for it in 0..iters {
